@@ -46,7 +46,30 @@ def run(repo, tier):
             ("_merge_rc_results", ["range(n)"], "every target's strands are merged"),
             ("_pairwise_max", ["range(n)"], "the maximum distribution is computed for every score")):
         out += loop_headers_rule(repo.func(T + "." + q), exp, "LOOPS", what)
+    out += integerise_rule(repo)
     return out
+
+
+def integerise_rule(repo):
+    """column similarities are integerised by floor(v * scale + 0.5) (round half UP), the rule of the reference implementation; python's and
+    numpy's round() round halves to EVEN, which scores a similarity that lies exactly between two integers one lower"""
+    from ..core import named
+    fi = repo.func(T + "._integer_distances_and_histogram")
+    role = "similarities are integerised by floor(v * bin_scale + 0.5) (round half up, as the reference does)"
+    xs = [s_ for s_ in walk_no_nested(fi.node) if isinstance(s_, ast.Assign) and isinstance(s_.targets[0], ast.Name) and
+          "bin_scale" in unparse(s_.value) and "gamma[" in unparse(s_.value)]
+    if len(xs) != 1:
+        return [unrecognised("INTEGERISE", fi, role, "integerisation statement not found (%d candidates)" % len(xs))]
+    t = unparse(xs[0].value)
+    if t == "math.floor((gamma[j, i] - medians[i]) * bin_scale + 0.5)":
+        return [holds("INTEGERISE", fi, role, t, xs[0], nontrivial=False)]
+    calls = [dotted(c.func) for c in ast.walk(xs[0].value) if isinstance(c, ast.Call)]
+    if any(c in ("round", "numpy.round", "numpy.rint", "numpy.around", "torch.round") for c in calls):
+        return [named("INTEGERISE", fi, role, "`%s` rounds halves to even: a similarity exactly between two integers is scored one lower than by "
+                      "floor(v + 0.5), which shifts alignment scores and the null histogram" % t[:80], xs[0])]
+    if any(c in ("int", "math.trunc", "math.ceil") for c in calls) and "+ 0.5" not in t:
+        return [named("INTEGERISE", fi, role, "`%s` truncates instead of rounding to nearest" % t[:80], xs[0])]
+    return [unrecognised("INTEGERISE", fi, role, t[:100], xs[0])]
 
 
 def pvalues_rules(repo):
